@@ -5,7 +5,7 @@ From Coq Require Import List ZArith Bool Lia.
 From Ivv Require Import Core.Kernel Core.CoreTypes Core.CoreFd Core.CoreModel Core.Monitors Core.CoreSpec
   Core.CoreRel Core.CorePhase2TimeMon Core.CorePhase2TimeFr Core.CorePhase2TimeT1 Core.CorePhase2TimeT1L
   Core.CorePhase2TimeMon2 Core.CorePhase2TimeSl Core.CorePhase2TimeReq.
-From Ivv Require Import Core.CoreInvBase Core.CoreInvDefs Core.CoreInvObj Core.CoreInvLoop Core.CoreInvWait Core.CoreInv.
+From Ivv Require Import Core.CoreInvBase Core.CoreInvDefs Core.CoreInvObj Core.CoreInvLoop Core.CoreInvWait Core.CoreInvTop Core.CoreInv.
 From Ivv Require Import Core.CorePhase2K1Base Core.CorePhase2K1Fd Core.CorePhase2K1Act Core.CorePhase2K1Inv
   Core.CorePhase2K1Loop Core.CorePhase2K1Wait Core.CorePhase2K1Poll Core.CorePhase2K1.
 From Ivv Require Timer.HeapModel.
@@ -896,11 +896,17 @@ Hypothesis R3_main : forall s, R3 s -> R3 (set_quit (emit s TMain) false).
 Lemma core0_T1 : T1 (core0 sc) /\ ran (mst (core0 sc)) = [].
 Proof.
   unfold core0.
-  destruct (if (sc_backend sc =? M_ET) || (sc_backend sc =? M_EP) then _ else _) as [efd k] eqn:E.
-  assert (CK : clock k = 1000000000).
-  { assert (KF : forall l k0, clock (fold_left k_user_fd l k0) = clock k0).
-    { induction l as [|i l IH]; intros k0; cbn [fold_left]; [reflexivity|]. rewrite IH. reflexivity. }
-    destruct ((sc_backend sc =? M_ET) || (sc_backend sc =? M_EP)); inversion E; subst; cbn; rewrite KF; reflexivity. }
+  set (k0 := fold_left k_user_fd (zseq 0 16) (kernel0 (sc_faults sc))).
+  assert (K0 : clock k0 = 1000000000).
+  { destruct (ksame_fold_user (zseq 0 16) (kernel0 (sc_faults sc))) as (C & _). fold k0 in C. rewrite C. reflexivity. }
+  assert (CK : forall efd k, (if (sc_backend sc =? M_ET) || (sc_backend sc =? M_EP) then k_epoll_create k0 else (-1, k0)) = (efd, k) ->
+               clock k = 1000000000).
+  { intros efd k E. destruct ((sc_backend sc =? M_ET) || (sc_backend sc =? M_EP)).
+    - unfold k_epoll_create in E. pose proof (ksame_alloc k0 K_EPOLL) as KA. destruct (k_alloc k0 K_EPOLL) as [a b].
+      inversion E; subst. destruct KA as (C & _). cbn [snd] in C. congruence.
+    - inversion E; subst. exact K0. }
+  destruct (if (sc_backend sc =? M_ET) || (sc_backend sc =? M_EP) then k_epoll_create k0 else (-1, k0)) as [efd k] eqn:E.
+  specialize (CK efd k eq_refl).
   split; [|reflexivity]. constructor.
   - intros t H. cbn [heap HeapModel.batch HeapModel.init] in H. destruct H.
   - split; [intros _ H; discriminate H|]. cbn [kern time_valid]. split; [lia|discriminate].
